@@ -22,7 +22,7 @@ import (
 func init() {
 	register(&Driver{
 		Name:     "mgr",
-		Header:   "From ZenoV Require Import Lib.Harness Rate.Bucket Rate.Manager Rate.RateHarness.\nOpen Scope string_scope.\nOpen Scope list_scope.\nOpen Scope Z_scope.\n",
+		Header:   "From Coq Require Import Uint63.\nFrom ZenoV Require Import Lib.Harness Rate.Bucket Rate.Manager Rate.RateHarness.\nOpen Scope string_scope.\nOpen Scope list_scope.\nOpen Scope uint63_scope.\n",
 		CaseType: "mcase",
 		Footer:   "\nDefinition DIFF := Eval vm_compute in mdiffs cases.\nPrint DIFF.\nDefinition MON := Eval vm_compute in mmons cases.\nPrint MON.\n",
 		Rule: "one case = (maxBuckets, capacity, rate, 8-40 events w(ait host)/f(ail host status)/s(ucc host)/b(urst host n) over 2-6 hosts) " +
@@ -42,7 +42,12 @@ func genMgr(r *Rng, i int, tier string) string {
 	// a case with a throttling status blocks a later Wait on that host for >= 5 s of real time
 	// (unless the bucket is evicted in between): keep those to about one case in eight
 	throttle := r.Intn(8) == 0
+	// 5xx halves the rate (a second one quarters it again): at most one, and none next to a
+	// throttling status (the failure count is shared: the penalty would be 10 s)
 	fives := 0
+	if throttle {
+		fives = 1
+	}
 	var ops []string
 	for len(ops) < n {
 		h := r.Intn(nh)
@@ -56,7 +61,7 @@ func genMgr(r *Rng, i int, tier string) string {
 			ops = append(ops, fmt.Sprintf("b%d:%d", h, 2+r.Intn(7)))
 		case k < 80:
 			ops = append(ops, fmt.Sprintf("s%d", h))
-		case k < 88 && fives < 2:
+		case k < 88 && fives < 1:
 			fives++
 			ops = append(ops, fmt.Sprintf("f%d:%d", h, []int{500, 503, 502}[r.Intn(3)]))
 		case k < 92:
@@ -88,11 +93,13 @@ func coqSnap(m map[string]int) string {
 		keys = append(keys, k)
 	}
 	sort.Strings(keys)
-	items := make([]string, len(keys))
-	for i, k := range keys {
-		items[i] = fmt.Sprintf("(%s, %s)", coqStr(k), coqZ(int64(m[k])))
+	var b strings.Builder
+	for _, k := range keys {
+		fmt.Fprintf(&b, "(KC %s %s ", coqStr(k), uz(int64(m[k])))
 	}
-	return coqList(items)
+	b.WriteString("KN")
+	b.WriteString(strings.Repeat(")", len(keys)))
+	return "(" + b.String() + ")"
 }
 
 func execMgr(in string) Result {
@@ -135,7 +142,7 @@ func execMgr(in string) Result {
 		if t1-t0 > 40000000 {
 			blocked++
 		}
-		evs = append(evs, fmt.Sprintf("EWait %s %s %s %s", coqStr(h), coqZ(t0), coqZ(t1), coqSnap(after(h))))
+		evs = append(evs, fmt.Sprintf("EW %s %s %s %s", coqStr(h), uz(t0), uz(t1), coqSnap(after(h))))
 	}
 	for _, op := range strings.Split(kv["ops"], ";") {
 		if len(op) < 2 {
@@ -155,7 +162,7 @@ func execMgr(in string) Result {
 			t0 := since()
 			bm.OnSuccess(h)
 			t1 := since()
-			evs = append(evs, fmt.Sprintf("ESucc %s %s %s %s", coqStr(h), coqZ(t0), coqZ(t1), coqSnap(after(h))))
+			evs = append(evs, fmt.Sprintf("ES %s %s %s %s", coqStr(h), uz(t0), uz(t1), coqSnap(after(h))))
 		case 'f':
 			code, _ := strconv.Atoi(arg)
 			if evicted[h] {
@@ -169,7 +176,7 @@ func execMgr(in string) Result {
 			t0 := since()
 			bm.AdjustOnFailure(h, code)
 			t1 := since()
-			evs = append(evs, fmt.Sprintf("EFail %s %s %s %s %s", coqStr(h), coqZ(int64(code)), coqZ(t0), coqZ(t1), coqSnap(after(h))))
+			evs = append(evs, fmt.Sprintf("EF %s %s %s %s %s", coqStr(h), coqZi(int64(code)), uz(t0), uz(t1), coqSnap(after(h))))
 		case 'b':
 			n, _ := strconv.Atoi(arg)
 			if _, ok := prev[h]; !ok {
@@ -184,12 +191,12 @@ func execMgr(in string) Result {
 					t0 := since()
 					bm.Wait(h)
 					t1 := since()
-					ivs[k] = fmt.Sprintf("(%s, %s)", coqZ(t0), coqZ(t1))
+					ivs[k] = fmt.Sprintf("%s %s", uz(t0), uz(t1))
 				}(k)
 			}
 			wg.Wait()
 			blocked++
-			evs = append(evs, fmt.Sprintf("EBurst %s %s %s", coqStr(h), coqList(ivs), coqSnap(after(h))))
+			evs = append(evs, fmt.Sprintf("EB %s %s %s", coqStr(h), coqIvs(ivs), coqSnap(after(h))))
 		}
 	}
 	var tags []string
@@ -204,8 +211,17 @@ func execMgr(in string) Result {
 		tags = append(tags, "throttle(real-time-penalty)")
 	}
 	return Result{
-		Term:       fmt.Sprintf("MC %s %s %s %s", coqZ(int64(maxB)), coqFl(capv), coqFl(rate), coqList(evs)),
+		Term:       fmt.Sprintf("MC %s %s %s %s", coqZi(int64(maxB)), coqFl(capv), coqFl(rate), coqList(evs)),
 		Tags:       tags,
 		Nontrivial: evictions > 0 && blocked > 0,
 	}
+}
+
+func coqIvs(items []string) string {
+	var b strings.Builder
+	for _, it := range items {
+		b.WriteString("(VC " + it + " ")
+	}
+	b.WriteString("VN" + strings.Repeat(")", len(items)))
+	return "(" + b.String() + ")"
 }
